@@ -275,7 +275,7 @@ def lineFooBar : Bytes := [49, 124, 49, 124, 102, 111, 111, 124, 98, 97, 114]
 
 /-- D1: with the address error unchecked, `1|1|foo|bar` yields a nil error and a nil address. -/
 theorem addr_unchecked_witness :
-    start ⟨false, true, 4, 50, 1, true⟩ cfgPlain extNone (.line lineFooBar) = .okNoAddr := by decide
+    start ⟨false, true, 4, 50, 1, true, true⟩ cfgPlain extNone (.line lineFooBar) = .okNoAddr := by decide
 
 /-- `1|1|tcp|:1|netrpc|` followed by 51 bytes of certificate -/
 def lineCert : Bytes :=
@@ -286,11 +286,11 @@ def extAll : Ext := ⟨fun n a => some (n, a), fun a => some ⟨sTcp, a⟩, fun 
 /-- D2: without the nil guard, a parseable certificate offered to a client without TLS panics
 (and the deferred handler kills the plugin before re-panicking). -/
 theorem cert_nil_witness :
-    start ⟨true, false, 4, 50, 1, true⟩ cfgPlain extAll (.line lineCert) = .panic true := by decide
+    start ⟨true, false, 4, 50, 1, true, true⟩ cfgPlain extAll (.line lineCert) = .panic true := by decide
 
 /-- Fewer required fields than the four that are indexed: index out of range. -/
 theorem min_fields_witness :
-    start ⟨true, true, 3, 50, 1, true⟩ cfgPlain extAll (.line [49, 124, 49, 124, 116]) = .panic true := by decide
+    start ⟨true, true, 3, 50, 1, true, true⟩ cfgPlain extAll (.line [49, 124, 49, 124, 116]) = .panic true := by decide
 
 /-- `1|1|tcp|a|grpc` offered to a net/rpc-only client -/
 def lineGrpc : Bytes := [49, 124, 49, 124, 116, 99, 112, 124, 97, 124, 103, 114, 112, 99]
@@ -298,16 +298,16 @@ def lineGrpc : Bytes := [49, 124, 49, 124, 116, 99, 112, 124, 97, 124, 103, 114,
 /-- With the address recorded where it is resolved, a line rejected for its protocol makes the
 first `Start` fail (and kill the plugin) — and every later `Start` succeed. -/
 theorem address_early_witness :
-    start ⟨true, true, 4, 50, 1, false⟩ cfgPlain extAll (.line lineGrpc) = .err .protocol true ∧
-    startAgainOk ⟨true, true, 4, 50, 1, false⟩ cfgPlain extAll (.line lineGrpc) = true := by decide
+    start ⟨true, true, 4, 50, 1, false, true⟩ cfgPlain extAll (.line lineGrpc) = .err .protocol true ∧
+    startAgainOk ⟨true, true, 4, 50, 1, false, true⟩ cfgPlain extAll (.line lineGrpc) = true := by decide
 
 /-! ### Non-vacuity -/
 
 /-- `1|1|tcp|:1|netrpc|` is accepted by a plain client with exactly the line's values. -/
-example : start ⟨true, true, 4, 50, 1, true⟩ cfgPlain extAll
+example : start ⟨true, true, 4, 50, 1, true, true⟩ cfgPlain extAll
     (.line [49, 124, 49, 124, 116, 99, 112, 124, 58, 49, 124, 110, 101, 116, 114, 112, 99, 124])
     = .ok ⟨sTcp, [58, 49]⟩ sNetrpc 1 := by decide
 
-example : (⟨true, true, 4, 50, 1, true⟩ : Params).Good := by decide
+example : (⟨true, true, 4, 50, 1, true, true⟩ : Params).Good := by decide
 
 end GoPlugin.Props.C01
